@@ -64,7 +64,7 @@ CHECKS.update({
    ref="6 C13", note=TB_E1),
 })
 CHECKS.update({
- "C18": dict(engine=E1, technique="explicit-state BFS over request histories with an exact resource vector at quiescence, plus long deterministic runs in virtual time, plus delay-bounded schedule exploration of slow peers (3 s / 6 s delays on every Diameter message delivery)",
+ "C18": dict(engine=E1, technique="explicit-state BFS over request histories with an exact resource vector at quiescence, plus long deterministic runs in virtual time, plus deviation-bounded schedule exploration of slow peers (3 s / 6 s delays on every Diameter message delivery), of peers that never answer (orders of the connection reader and the requesting task) and of a peer that does not know the charging application",
    text="All histories of updates/recharges over two subscribers up to the depth bound: open and half-closed (modelled) Diameter connections and goroutines of the world are counted exactly before and after every repeated request; long runs of N = 10/100 (thorough 1000) back-to-back and spaced updates must never exceed the resources the first three requests per subscriber needed, also after 60 s of virtual quiet.",
    ref="6 C18", note=TB_E1),
 })
@@ -79,13 +79,13 @@ CHECKS.update({
    ref="6 C08", note=TB_E1),
 })
 CHECKS.update({
- "C17": dict(engine=E2, technique="bounded-exhaustive enumeration of message values (single + pairwise deviations) through the real go-diameter marshal/serialise/parse/unmarshal path with the chf dictionaries; exhaustive static resolution of every avp struct tag",
+ "C17": dict(engine=E2, technique="bounded-exhaustive enumeration of message values (single + pairwise deviations) through the real go-diameter marshal/serialise/parse/unmarshal path with the chf dictionaries; exhaustive static resolution of every avp struct tag; the same value spaces through the CHF's own client functions against a scripted peer on the modelled network",
    text="For each of the four message structures the base message and every value within 2 deviations (boundary values of every scalar, string lengths 0/1/255/4096 and raw octets, every optional grouped AVP present/absent) is marshalled, written, re-read and unmarshalled and compared field by field; every avp tag of every struct of ccs_diameter/datatype (registry generated from the tree) must resolve in the loaded dictionaries with a matching data type, and AVP codes/names in the chf dictionaries must be unique.",
    ref="6 C17", note=TB_E2),
 })
 CHECKS.update({
- "C19": dict(engine=E1, technique="stateless deviation-bounded schedule exploration (controlled goroutine scheduler + virtual time) of the real CHF / go-diameter / peer servers: every placement of up to k answer-delay or timer-first deviations",
-   text="One subscriber sends consecutive updates with pairwise different requested amounts and then a fault-free probe; from the default schedule every placement of up to k deviations (quick: k=1 on three updates and k=2 on two updates; thorough: k=2 / k=3) is executed to completion, where a deviation delays the delivery of an answer beyond the 5 s client time-out at the client connection or at the client's dispatcher, or lets the clock run first. Each execution is checked for cross-talk (grant or reservation not matching the update's own request), requests blocked forever (decided by the scheduler in virtual time) and a failing probe.",
+ "C19": dict(engine=E1, technique="stateless deviation-bounded schedule exploration (controlled goroutine scheduler + virtual time) of the real CHF / go-diameter / peer servers: every placement of up to k answer-delay, answer-retransmission or timer-first deviations",
+   text="One subscriber sends consecutive updates with pairwise different requested amounts and then a fault-free probe; from the default schedule every placement of up to k deviations (quick: k=1 on three updates and k=2 on two updates; thorough: k=2 / k=3) is executed to completion, where a deviation delays the delivery of an answer beyond the 5 s client time-out at the client connection or at the client's dispatcher, makes a peer retransmit an application answer twice, or lets the clock run first. Each execution is checked for cross-talk (grant or reservation not matching the update's own request), requests blocked forever (decided by the scheduler in virtual time) and a failing probe.",
    ref="6 C19", note=TB_E1),
 })
 CHECKS.update({
